@@ -35,6 +35,11 @@ CHECKS = {
     technique="TLA+ predicates (Tables.tla) evaluated by TLC over an exhaustive dump of the public tables (binding O2)",
     text="The runner dumps kerr.ErrorForCode/TypedErrorForCode for all 65536 int16 codes, kmsg.RequestForKey/ResponseForKey/NameForKey (key, min/max version, type names, ResponseKind) for all 65536 int16 keys, and every named kversion release (32 named, Stable, Tip, VersionStrings) per key with the codec's maximum. Tables.tla states the three consistency predicates (code maps to itself on the contiguous Kafka range, 0 to nil, others to UNKNOWN_SERVER_ERROR; request/response agree on key, name, versions; no release exceeds the codec) and TLC evaluates them on every row.",
     note="Finite data invariant, exhaustive over the int16 domains; the Kafka code range is read off the table (contiguity enforced, lower bounds guard against vacuity)."),
+ "C17": dict(
+    level="exploration", design="5/C17",
+    technique="TLA+ oracle Wire.tla over bit vectors evaluated by TLC; encodings/decoder verdicts compared with pkg/kbin (binding O1)",
+    text="Wire.tla defines zig-zag, base-128 groups, big-endian bytes and the decoder (value, bytes consumed, short, overflow) over bit vectors, because TLC integers are 32-bit. TLC computes ~29k cases: encodings of every boundary value of every 7-bit group for 8/16/32/64 bits, decoder verdicts for every control-byte structure up to 5/10 continuation bytes, and length prefixes around the varint borders and null; the runner compares every Append*/length/decoder/Reader method, checks short inputs never panic or over-read, and checks the private copy in pkg/kmsg/internal/kbin is the same source.",
+    note="Class coverage instead of 'every 32-bit value'; overlong means longer than the maximal 5/10-byte form (non-minimal shorter forms are accepted by Kafka and by the code)."),
 }
 
 NOT_APPLICABLE = {
